@@ -1130,3 +1130,199 @@ def c12_sites(repo_root, tier):
             "trusted": [], "functions": [],
             "assumptions": [],
             "not_covered": ["parse(str(t)) == t in general, whitespace-control fidelity of every serialiser, and pickling (no function of the repository implements pickling: nothing to put a contract on)"]}
+
+
+# --------------------------------------------------------------------------- C15
+@register("C15")
+def c15_sites(repo_root, tier):
+    """(A) relational lemma: the family looked up at run time (run_family) and the family reported (static_family) - the two
+    specification functions the translate contracts pin the code to - agree on every combination of literal operands.
+    (B) site obligations over the extraction visitor in liquid2/messages.py and the render methods of the translate tag."""
+    from contracts.c_translate import run_family, static_family
+    repo = Repo(repo_root)
+    obs = []
+    # ---- (A) `t` filter: all operands present are literals; count is absent / None-like at run time / a usable number
+    for ctx in ("absent", "literal"):
+        for plural in ("absent", "literal"):
+            for count in ("absent", "none-at-run-time", "number"):
+                run = run_family(plural == "literal", count == "number", ctx == "literal")
+                stat = static_family(plural == "literal", ctx == "literal")
+                oid = f"liquid2.builtin.filters.translate:Translate/lemma.family[context={ctx},plural={plural},count={count}]"
+                _ob(obs, oid, run == stat, f"render looks up {run}, extraction reports {stat}", backend="lemma",
+                    witness=None if run == stat else _c15_program(
+                        "{{ 'one' | t: " + ", ".join(x for x in ("'ctx'" if ctx == "literal" else "", "plural: 'many'" if plural == "literal" else "",
+                                                               "" if count == "absent" else ("count: nil" if count != "number" else "count: 2")) if x) + " }}", run, stat))
+    # ---- (A') translate tag: count is never None at run time (resolve_count contract), context literal (non-empty / empty) or absent
+    for pb in (False, True):
+        for ctx in ("absent", "literal", "empty-literal"):
+            run = run_family(pb, True, ctx == "literal")
+            stat = static_family(pb, ctx == "literal")
+            _ob(obs, f"liquid2.builtin.tags.translate_tag:TranslateNode/lemma.family[plural_block={pb},context={ctx}]", run == stat,
+                f"render looks up {run}, extraction reports {stat}", backend="lemma")
+    # ---- (B) render hands gettext() the resolved count and context
+    tm = repo.module("liquid2.builtin.tags.translate_tag")
+    for meth in ("render_to_output", "render_to_output_async"):
+        fn = tm.find(f"TranslateNode.{meth}") if tm else None
+        ok = False
+        if fn is not None:
+            src = [ast.unparse(s) for s in _body_wo_doc(fn)]
+            ok = ("count = self.resolve_count(context, namespace)" in src and "message_context = self.resolve_message_context(context, namespace)" in src
+                  and any(s.startswith("message_text = self.gettext(translations, count=count, message_context=message_context)") for s in src)
+                  and sum(1 for c in _calls(fn) if isinstance(c.func, ast.Attribute) and c.func.attr in ("gettext", "ngettext", "pgettext", "npgettext")) == 1)
+        _ob(obs, f"liquid2.builtin.tags.translate_tag:TranslateNode.{meth}/site.single-lookup", ok,
+            "render makes its one catalog lookup through self.gettext(translations, count=resolve_count(..), message_context=resolve_message_context(..))")
+    # catalog functions are called nowhere else in the package
+    extra = []
+    for m, qual, cls, fn2, parent in _all_functions(repo):
+        for c in _calls(fn2):
+            if isinstance(c.func, ast.Attribute) and c.func.attr in ("gettext", "ngettext", "pgettext", "npgettext") and ast.unparse(c.func.value) != "self":
+                if (m.name, (qual.split(".")[0])) in (("liquid2.builtin.filters.translate", "Translate"), ("liquid2.builtin.filters.translate", "GetText"),
+                                                      ("liquid2.builtin.filters.translate", "NGetText"), ("liquid2.builtin.filters.translate", "PGetText"),
+                                                      ("liquid2.builtin.filters.translate", "NPGetText"), ("liquid2.builtin.tags.translate_tag", "TranslateNode")):
+                    continue
+                extra.append(f"{m.name}:{qual}@{c.lineno}")
+    _ob(obs, "liquid2/site.catalog-lookups-only-under-contract", not extra,
+        "every *gettext call of the package is in a function under contract" if not extra else f"catalog lookups outside the contracts: {extra[:4]}")
+    # ---- (B) the extraction visitor
+    mm = repo.module("liquid2.messages")
+    ext = mm.find("extract_from_template") if mm else None
+    if ext is None:
+        _ob(obs, "liquid2.messages:extract_from_template/site.found", False, "not found")
+        return {"obligations": obs, "samples": [], "trusted": [], "functions": [], "assumptions": []}
+    inner = {st.name: st for st in ext.body if isinstance(st, ast.FunctionDef)}
+    visit, vexp = inner.get("visit"), inner.get("visit_expression")
+    # never fails on an empty template
+    src = ast.unparse(ext)
+    guarded = all(_guarded_by(ext, n, "template.nodes") for n in ast.walk(ext)
+                  if isinstance(n, ast.Subscript) and ast.unparse(n.value) == "template.nodes")
+    _ob(obs, "liquid2.messages:extract_from_template/site.empty-template", guarded, "template.nodes[..] is indexed only where `template.nodes` is known to be non-empty")
+    # root loop: every root node's expressions and the node itself are visited
+    root = [st for st in ext.body if isinstance(st, ast.For) and ast.unparse(st.iter) == "template.nodes"]
+    ok = len(root) == 1 and _visits_expressions_and_node(root[0], ast.unparse(root[0].target))
+    _ob(obs, "liquid2.messages:extract_from_template/site.visits-every-root-node", ok, "for node in template.nodes: each of node.expressions() goes to visit_expression and node goes to visit")
+    ok = False
+    if visit is not None:
+        loops = [st for st in visit.body if isinstance(st, ast.For) and isinstance(st.iter, ast.Call) and ast.unparse(st.iter.func) == "node.children"]
+        ok = len(loops) == 1 and _visits_expressions_and_node(loops[0], ast.unparse(loops[0].target))
+    _ob(obs, "liquid2.messages:extract_from_template.visit/site.visits-every-child", ok, "for child in node.children(..): each of child.expressions() goes to visit_expression and child goes to visit")
+    ok = False
+    if visit is not None:
+        # translatable tags: every message of node.messages() is yielded with the line number it carries
+        for n in ast.walk(visit):
+            if isinstance(n, ast.For) and ast.unparse(n.iter) == "node.messages()":
+                tgt = ast.unparse(n.target)
+                ys = [y for y in ast.walk(n) if isinstance(y, ast.Yield)]
+                ok = tgt == "(lineno, funcname, message)" and len(ys) == 1 and ast.unparse(ys[0].value).startswith("MessageTuple(lineno=lineno, funcname=funcname, message=message,")
+    _ob(obs, "liquid2.messages:extract_from_template.visit/site.yields-tag-messages", ok, "every MessageText of a translatable tag is yielded with its own lineno, funcname and message")
+    ok = False
+    if vexp is not None:
+        rec = [st for st in vexp.body if isinstance(st, ast.For) and ast.unparse(st.iter) == "expr.children()"]
+        ok = len(rec) == 1 and ast.unparse(rec[0].body[0]) == f"yield from visit_expression({ast.unparse(rec[0].target)}, lineno)"
+        first = vexp.body[0]
+        ok = ok and isinstance(first, ast.If) and ast.unparse(first.test) == "isinstance(expr, (FilteredExpression, TernaryFilteredExpression))"
+        if ok:
+            loop = first.body[0]
+            ok = isinstance(loop, ast.For) and ast.unparse(loop.iter) == "_extract_from_filters(template.env, expr, lineno, _keywords)"
+            ys = [y for y in ast.walk(loop) if isinstance(y, ast.Yield)]
+            ok = ok and len(ys) == 1 and ast.unparse(ys[0].value).startswith("MessageTuple(lineno=_lineno, funcname=funcname, message=message,") and ast.unparse(loop.target) == "(_lineno, funcname, message)"
+    _ob(obs, "liquid2.messages:extract_from_template.visit_expression/site.filters-then-children", ok,
+        "a (ternary) filtered expression is handed to _extract_from_filters, every message it reports is yielded unchanged, and every child expression is visited")
+    # _extract_from_filters: the first filter of a filtered expression is applied to `left`; of a ternary, to `alternative`, after the left branch
+    eff = mm.find("_extract_from_filters")
+    ok = False
+    if eff is not None:
+        calls = [c for c in _calls(eff) if isinstance(c.func, ast.Attribute) and c.func.attr == "message"]
+        args = sorted(tuple(ast.unparse(a) for a in c.args) for c in calls)
+        rec = [c for c in _calls(eff) if isinstance(c.func, ast.Name) and c.func.id == "_extract_from_filters"]
+        ok = (args == [("expression.alternative", "first_filter", "lineno"), ("expression.left", "first_filter", "lineno")]
+              and len(rec) == 1 and [ast.unparse(a) for a in rec[0].args] == ["environment", "expression.left", "lineno", "keywords"]
+              and all(ast.unparse(n.value) == "expression.filters[0]" for n in ast.walk(eff) if isinstance(n, ast.Assign) and ast.unparse(n.targets[0]) == "first_filter"))
+        # no condition other than the documented ones guards the call
+        tests = sorted({ast.unparse(n.test) for n in ast.walk(eff) if isinstance(n, ast.If)})
+        allowed = {"isinstance(expression, FilteredExpression) and expression.filters", "first_filter.name in keywords", "isinstance(filter_callable, TranslatableFilter)",
+                   "isinstance(expression, TernaryFilteredExpression)", "expression.filters and expression.alternative"}
+        walrus = {t for t in tests if t.startswith("(message := filter_callable.message(") or t.startswith("message := filter_callable.message(")}
+        ok = ok and (set(tests) - walrus) <= allowed
+    _ob(obs, "liquid2.messages:_extract_from_filters/site.first-filter-on-literal-operand", ok,
+        "message() is asked about (left, filters[0]) of a filtered expression and (alternative, filters[0]) of a ternary, the ternary's left branch is recursed into, and only the documented guards apply")
+    # translator comments: attached to the next message only
+    ok = False
+    if visit is not None and vexp is not None:
+        ok = True
+        for fn in (visit, vexp):
+            for y in [n for n in ast.walk(fn) if isinstance(n, ast.Yield)]:
+                # the statement right after each yield of a MessageTuple clears the pending comments,
+                # and the statement before it drops comments that are not on the line just above
+                par = _parent_body(fn, y)
+                if par is None:
+                    ok = False
+                    continue
+                body, idx = par
+                after = ast.unparse(body[idx + 1]) if idx + 1 < len(body) else ""
+                before = ast.unparse(body[idx - 1]) if idx > 0 else ""
+                ok = ok and after == "_comments.clear()" and before.replace("\n", " ").startswith("if _comments and _comments[-1][0] < ") and "_comments.clear()" in before
+        # a new translator comment replaces the pending one
+        cm = [n for n in ast.walk(visit) if isinstance(n, ast.Call) and ast.unparse(n.func) == "_comments.append"]
+        ok = ok and len(cm) == 1
+    _ob(obs, "liquid2.messages:extract_from_template/site.comments-attach-to-next-message-only", ok,
+        "pending comments are cleared right after the first message that takes them, dropped when not on the line just above, and replaced by a newer comment")
+    return {"obligations": obs, "samples": [{"obligation": o["oid"], "backend": o["backend"], "note": o["note"]} for o in obs[:2]],
+            "trusted": ["Filter.evaluate passes positional and keyword filter arguments to the filter callable as written in the template",
+                        "Expression.children()/Node.children()/Node.expressions() enumerate every sub-expression and child (that is C11's obligation)"],
+            "functions": [], "assumptions": ["auto_escape is off (with auto_escape_message the message id looked up is the escaped text, by design)",
+                                              "message_interpolation does not perform catalog lookups (format_message only reads the context)"],
+            "not_covered": ["templates reached through include/render are extracted on their own (include_partials=False)",
+                            "non-literal message contexts of the translate tag cannot be reported statically and are outside the claim"]}
+
+
+C15_PROGRAM = """
+import gettext, json
+from liquid2 import Environment
+from liquid2.messages import extract_from_template
+SOURCE = %r
+calls = []
+class Recording(gettext.NullTranslations):
+    def gettext(self, m): calls.append(("gettext", (m,))); return m
+    def ngettext(self, s, p, n): calls.append(("ngettext", (s, p))); return s if n == 1 else p
+    def pgettext(self, c, m): calls.append(("pgettext", ((c, "c"), m))); return m
+    def npgettext(self, c, s, p, n): calls.append(("npgettext", ((c, "c"), s, p))); return s if n == 1 else p
+t = Environment().from_string(SOURCE)
+t.render(translations=Recording())
+reported = [(m.funcname, tuple(m.message)) for m in extract_from_template(t)]
+missing = [c for c in calls if c not in reported]
+VIOLATES = bool(missing)
+OBSERVED = json.dumps({"template": SOURCE, "looked_up_at_run_time": calls, "reported_by_extraction": reported})
+"""
+
+
+def _c15_program(source, run, stat):
+    return {"program": C15_PROGRAM % source, "template": source, "run_time_family": run, "reported_family": stat}
+
+
+def _guarded_by(fn, node, expr_src):
+    """Is `node` inside the body of `if <expr_src>` / the true arm of `X if <expr_src> else Y`?"""
+    for n in ast.walk(fn):
+        if isinstance(n, ast.IfExp) and ast.unparse(n.test) == expr_src and any(x is node for x in ast.walk(n.body)):
+            return True
+        if isinstance(n, ast.If) and ast.unparse(n.test) == expr_src and any(x is node for s in n.body for x in ast.walk(s)):
+            return True
+    return False
+
+
+def _visits_expressions_and_node(loop, var):
+    body = [ast.unparse(s).replace("\n", " ") for s in loop.body]
+    import re as _r
+    has_expr = any(_r.fullmatch(rf"for (\w+) in {var}\.expressions\(\):\s+yield from visit_expression\(\1, _line_number\(\1\.token\)\)", b) for b in body)
+    has_visit = f"yield from visit({var})" in body
+    return has_expr and has_visit
+
+
+def _parent_body(fn, node):
+    for n in ast.walk(fn):
+        for field in ("body", "orelse", "finalbody"):
+            b = getattr(n, field, None)
+            if isinstance(b, list):
+                for i, st in enumerate(b):
+                    if isinstance(st, ast.Expr) and st.value is node:
+                        return b, i
+    return None
